@@ -557,6 +557,32 @@ func c20Transport(c *core.Ctx, up, mp *packages.Package) {
 				f = x
 			}
 		}
+		if f == nil && strings.HasPrefix(m.fn, "var ") {
+			// the middleware value built from a named function instead of a literal: Func(authenticateUser)
+			name := strings.TrimSuffix(strings.TrimPrefix(m.fn, "var "), "$1")
+			for _, file := range mp.Syntax {
+				for _, d := range file.Decls {
+					gd, ok := d.(*ast.GenDecl)
+					if !ok {
+						continue
+					}
+					for _, sp := range gd.Specs {
+						vs, ok := sp.(*ast.ValueSpec)
+						if !ok || len(vs.Names) != 1 || vs.Names[0].Name != name || len(vs.Values) != 1 {
+							continue
+						}
+						ast.Inspect(vs.Values[0], func(n ast.Node) bool {
+							if id, ok := n.(*ast.Ident); ok && f == nil {
+								if fo, ok := mp.TypesInfo.Uses[id].(*types.Func); ok && fo.Pkg() == mp.Types {
+									f = an.FnOf(c.Prog.ByPath, fo)
+								}
+							}
+							return true
+						})
+					}
+				}
+			}
+		}
 		if f == nil {
 			c.Miss("R6", "func=middleware."+m.fn, "not found")
 			continue
